@@ -10,8 +10,8 @@ which side of the plane through A, B, C the eye (the origin of (x, y, w)-space) 
      `piece_backface_iff` every non-degenerate piece is back-facing iff 0 < dx*dy*det3 t
      `piece_culled_eq`    … hence culled iff `cullsInput ctx dx dy t`: all pieces of one input triangle are
                           culled or kept TOGETHER, by the side of the input triangle's plane the eye is on
-  B. `edgeFn_piece`       edge function of a projected piece edge at a projected point of `t`
-     `strictIn_inside_piece`, `inside_piece_weakIn`
+  B. `edgeFn_bary`        edge function of a projected piece edge at a projected point of `t`
+     `edgeFn_bary`, `strictIn_insideTri`, `insideTri_weakIn`, `insideTri_nondeg`   (file VisibleEdge)
 -/
 import Retro.Props.C01.Ideal
 import Retro.Props.C03.Cover
@@ -132,6 +132,18 @@ theorem piece_culled_eq (ctx : Ctx) (dx dy cx cy : K) (t tri : Tri K) (s : Tri2 
   cases ctx.faceCull with
   | none => rfl
   | some m => cases m <;> rfl
+
+/-- Two non-degenerate pieces of the same input triangle receive the same culling decision. -/
+theorem pieces_culled_together (ctx : Ctx) (dx dy cx cy : K) (t tri tri' : Tri K) (s s' : Tri2 K)
+    (hrep : TriRep t s tri) (hrep' : TriRep t s' tri')
+    (ha : 0 < tri.a.pos.w) (hb : 0 < tri.b.pos.w) (hc : 0 < tri.c.pos.w) (hs : 0 < orient2 s.a s.b s.c)
+    (ha' : 0 < tri'.a.pos.w) (hb' : 0 < tri'.b.pos.w) (hc' : 0 < tri'.c.pos.w) (hs' : 0 < orient2 s'.a s'.b s'.c) :
+    culled ctx (toScreen (vpMat dx dy cx cy) tri.a) (toScreen (vpMat dx dy cx cy) tri.b)
+      (toScreen (vpMat dx dy cx cy) tri.c) =
+    culled ctx (toScreen (vpMat dx dy cx cy) tri'.a) (toScreen (vpMat dx dy cx cy) tri'.b)
+      (toScreen (vpMat dx dy cx cy) tri'.c) := by
+  rw [piece_culled_eq ctx dx dy cx cy t tri s hrep ha hb hc hs,
+    piece_culled_eq ctx dx dy cx cy t tri' s' hrep' ha' hb' hc' hs']
 
 end Screen
 
